@@ -77,6 +77,12 @@ def run(tier):
     os.makedirs(tdir, exist_ok=True)
     env["THREADS_DIR"] = tdir  # thread-private files for the file entry points and asm_create_bin_file
 
+    # the single-threaded reference tables (one per program list), computed once by the uninstrumented build and loaded by every run
+    reff = {pf: pf + ".ref", pfg: pfg + ".ref"}
+    for progfile, rfile in reff.items():
+        rr = subprocess.run([cold, progfile, "1", "0", "1", "0"], capture_output=True, text=True, env=dict(env, THREADS_REF_FILE=rfile, THREADS_REF_SAVE="1"), timeout=600)
+        if not os.path.exists(rfile):
+            raise common.HarnessError("reference table not written: " + rr.stdout[-300:] + rr.stderr[-300:])
     timeouts = [0]
 
     def go(job):
@@ -85,7 +91,8 @@ def run(tier):
         if timeouts[0] >= 2:  # two runs hit the (100x) time bound: the remaining ones are not started (inconclusive, like a timeout)
             return -999, "", "skipped after two timeouts"
         try:
-            e2 = dict(env, THREADS_BIG_EXT_ONLY="1") if fl == "tsan" else env
+            e2 = dict(env, THREADS_BIG_EXT_ONLY="1") if fl == "tsan" else dict(env)
+            e2["THREADS_REF_FILE"] = reff[pf if fl == "tsan" else pfg]
             r = subprocess.run([binary, pf if fl == "tsan" else pfg, str(T), str(iters), str(seed), str(stag)] + extra, capture_output=True, text=True, env=e2, timeout=max(300, 0.04 * (job[6] if len(job) > 6 else 0)), errors="replace")  # (about 10 ms per cold-start trial)
             return r.returncode, r.stdout, r.stderr
         except subprocess.TimeoutExpired:
